@@ -1209,6 +1209,9 @@ func rootAndPath(x ast.Expr) (*ast.Ident, []string) {
 func (e *Env) addressOf(x ast.Expr) Value {
 	if cl, ok := x.(*ast.CompositeLit); ok {
 		v := e.composite(cl)
+		if ev, isErr := v.(ErrV); isErr {
+			return ev
+		}
 		a := e.x.alloc()
 		e.st.mem[a] = v
 		t := e.typeOf(cl)
